@@ -612,7 +612,6 @@ def _fetchTextRow(
 
     word = dataStr[startIndex:endIndex]
     word = word[1:-1]  # Remove the quote marks around the text
-    word = word.strip()
 
     word = word.replace('""', '"')  # Unescape quote marks
 
